@@ -48,6 +48,7 @@ def gen_case(r, idx):
         t["CNB_TARGET_ARCH_VARIANT"] = r.choice(["v8", "", "v 7"])
     c["targets"] = t
     c["bad_target"] = r.choice(phase.TARGET_VARS) if r.random() < 0.06 else None
+    c["bp_dir_style"] = r.choice(["plain", "plain", "symlink", "dotted", "trailing-slash"])
     # descriptor
     c["bp_name"] = r.choice([None, "Name", "q\"uote", "日本"])
     c["bp_metadata"] = None if r.random() < 0.3 else tomlw.rnd_table(r, 0)
@@ -130,7 +131,15 @@ def run_case(base, c, sh):
     lay = phase.Layout(root)
     try:
         materialise(lay, c)
-        env = {"CNB_BUILDPACK_DIR": lay.bp}
+        bp_given = lay.bp
+        if c["bp_dir_style"] == "symlink":
+            bp_given = os.path.join(lay.root, "bp-link")
+            os.symlink(lay.bp, bp_given)
+        elif c["bp_dir_style"] == "dotted":
+            bp_given = os.path.join(lay.root, "app", "..", ".", "bp")
+        elif c["bp_dir_style"] == "trailing-slash":
+            bp_given = lay.bp + "/"
+        env = {"CNB_BUILDPACK_DIR": bp_given}
         env_b = {}
         for k, v in c["targets"].items():
             env[k] = v
@@ -206,8 +215,8 @@ def run_case(base, c, sh):
         if got["target"] != want_t:
             sh.violation("target", "%s: target in the context %r, environment says %r" % (what, got["target"], want_t), case)
             return
-        if got["app_dir"] != lay.app or got["buildpack_dir"] != lay.bp or (c["phase"] == "build" and got["layers_dir"] != lay.layers):
-            sh.violation("dirs", "%s: directories in the context %r / %r / %r" % (what, got["app_dir"], got["buildpack_dir"], got.get("layers_dir")), case)
+        if got["app_dir"] != lay.app or got["buildpack_dir"] != bp_given or (c["phase"] == "build" and got["layers_dir"] != lay.layers):
+            sh.violation("dirs", "%s: directories in the context: app %r, buildpack %r (CNB_BUILDPACK_DIR was %r), layers %r" % (what, got["app_dir"], got["buildpack_dir"], bp_given, got.get("layers_dir")), case)
             return
         d = got["descriptor"]
         want_md = None if c["bp_metadata"] is None else tomlw.to_py(c["bp_metadata"])
